@@ -24,6 +24,10 @@ TRUSTED = [
     'scipp min/max of a row and the identity elements for empty rows (only rows in documented units are generated for N = 0)',
     'tools/harness/sqw_impl.py + lib/sqwcorr.py (exact serialisation; Uint63 literals only as transport in correspondence files)',
     'lib/sqwcorr.py:unit_facts (ast extraction of the unit string literals of _models.py / _sqw.py, fail-closed)',
+    'coq-run/C13/CheckC13.v: the per-case checker run by the shards = Check.check_c13 with an identity shortcut in the conversion '
+    'check (same unit, identical finite bit patterns => no rational arithmetic); transport of long lists: identical literals are '
+    'let-bound once, lists of binary32-exact values travel as binary32 patterns and are widened in Coq (f32w); for the two > 1 MiB '
+    'pixel blocks the reader\'s copy of the pixel values is not transported (its shape, metadata and errors are; the file bytes are decoded in Coq)',
 ]
 ASSUMPTIONS = [
     'KNOWN FINDINGS excluded from the reader-unit theorem: the two alatt fields (sample, projection) are labelled 1/angstrom by the reader (C13_reader_unit_dimension_except_known_alatt is the full statement minus exactly these; C13_alatt_unit_refuted proves the defect from the regenerated tables); the reader raises on a 2-D en (no theorem depends on it)',
@@ -104,9 +108,11 @@ def gen_cases(rng, tier):
     cases.append(S.mk_case(rng, [S.add_pix_extras(rng, S.gen_pix_call(rng, 7, n_runs=2), mode='coords')], tags=['pix-extras', 'extra-coords']))
     # one array write above 1 MiB per sink (a single chunk of > 29127 pixels x 9 float32): block-wise copying paths
     for sink in ('bytesio', 'file'):
-        n = rng.randrange(29500, 33000)
-        cases.append(S.mk_case(rng, [S.gen_pix_call(rng, n, convert=False, n_runs=1)], sink=sink,
-                               chunk=rng.choice([n, n + 1, 65536, 100000]), tags=['values', 'single-write-above-1MiB']))
+        n = rng.randrange(29200, 30000)
+        c = S.mk_case(rng, [S.gen_pix_call(rng, n, convert=False, n_runs=1, row_dtypes='f32-exact')], sink=sink,
+                      chunk=rng.choice([n, n + 1, 65536, 100000]), tags=['values', 'single-write-above-1MiB'])
+        c['reader_pixels'] = False      # the reader's copy of the 270000 values is not transported (its shape and errors are)
+        cases.append(c)
     # empty strings / long strings
     for L in (0, 1, 255, 256, 70000):
         pc = S.gen_pix_call(rng, 5, n_runs=2)
@@ -196,11 +202,22 @@ def correspondence(ctx):
                 'float32-exact, float32 rounding ties, float32 subnormal range, near float32 max, underflow to 0), input units '
                 '1/angstrom|1/nm|1/um|1/pm|1/m, meV|eV|ueV|keV, count|kcount|Mcount, rad|deg|mrad, angstrom|nm|pm|um; int64/float64/'
                 'float32 rows; N in {0..1000,3000}; chunk grid; 1..20 runs direct/indirect (1-d and 2-d en); strings 0/1/255/256/70000; '
-                'both byte orders; BytesIO and files. Each file is decoded in Coq (independent decoder + content view) and compared '
+                'both byte orders; BytesIO and files; the supplied pixel data array carries 1..3 boolean masks (random density incl. none / all '
+                'set; one mask flagging exactly the pixels that hold the min / max of each of the nine rows, N = 1..200) and 0..3 '
+                'coordinates that are not rows (per pixel / scalar, float64 / float32 / int64, with and without variances) in every third '
+                'random file and in dedicated files: pixels, npix and data_range must be those of ALL N supplied pixels; one pixel block '
+                'written as a single array of > 1 MiB (29200..30000 pixels, chunk >= N) per sink. Each file is decoded in Coq (independent decoder + content view) and compared '
                 'with the supplied content; conversions checked against exact rationals; reader output compared too. '
                 'non-trivial = at least one builder call; distinct = distinct (call kinds, byte order, sink, N, chunk, file size)',
         'samples': [S.describe(cases[i]) for i in (0, 9, 50, len(cases) - 1) if i < len(cases)],
         'disagreements': len(fails),
+        'per_tag': {t: sum(1 for c in cases if t in c['tags']) for t in ('random', 'en2d', 'values', 'strings', 'pix-extras',
+                                                                        'masked-extreme', 'single-write-above-1MiB')},
+        'masked_extreme_rows': sorted({t.split(':', 1)[1] for c in cases for t in c['tags'] if t.startswith('masked-extreme:')}),
+        'files_with_masks': sum(1 for c in cases if any(cl.get('masks') for cl in c['calls'])),
+        'files_with_extra_coords': sum(1 for c in cases if any(cl.get('extra_coords') for cl in c['calls'])),
+        'largest_single_array_write_bytes': max([36 * min(cl['npix'], c['chunk'] or 8192) for c in cases for cl in c['calls']
+                                                 if cl['kind'] == 'pix'] or [0]),
         'pixel_values_compared': values,
         'impl_seconds': round(t_impl, 1),
     })
@@ -237,6 +254,49 @@ def observed_detail(key, c, r):
     return out
 
 
+def pixel_statement_problems(c, r):
+    """the pixel part of the property statement on one written file whose rows were supplied in the documented units
+    (no conversion involved): the reader returns N pixels, pixel i holds the supplied values of pixel i rounded once to
+    binary32, the pixel metadata hold N and the min / max of each row over ALL N supplied pixels.  [(key, text)]"""
+    import struct
+    pcs = [cl for cl in c['calls'] if cl['kind'] == 'pix']
+    if not pcs or pcs[-1]['npix'] == 0:
+        return []
+    pc = pcs[-1]
+    if any(pc['rows'][k].get('unit') != S.ROW_TARGET[k] for k in ('u1', 'u2', 'u3', 'u4', 'signal')):
+        return []
+    n = pc['npix']
+    view = r.get('reader', {}).get('view', {})
+    errs = r.get('reader', {}).get('errors', {})
+    out = []
+    rows = [[float(v) for v in pc['rows'][k]['values']] for k in S.ROW_ORDER]
+    if 'pix/metadata' in errs or 'pixmeta.npix' not in view:
+        out.append(('reader-error:pix/metadata', f'pixel metadata not readable: {errs.get("pix/metadata")}'))
+    else:
+        if view['pixmeta.npix']['v'] != n:
+            out.append(('reader-int:pixmeta.npix', f'{n} pixels supplied, pixel metadata say npix = {view["pixmeta.npix"]["v"]}'))
+        want = [S.bits64(f(row)) for row in rows for f in (min, max)]
+        got = view['pixmeta.range']['vals']
+        if got != want:
+            bad = [(S.ROW_ORDER[i // 2], 'min' if i % 2 == 0 else 'max', struct.unpack('>d', struct.pack('>Q', g))[0],
+                    struct.unpack('>d', struct.pack('>Q', w))[0]) for i, (g, w) in enumerate(zip(got, want)) if g != w][:3]
+            out.append(('reader-value:pixmeta.range', f'data_range of the pixel metadata is not the min / max over all {n} supplied pixels: '
+                                                     f'(row, which, in the file, supplied) {bad}; {len(got)} numbers'))
+    if 'pix/data_wrap' in errs or 'pix.shape' not in view:
+        out.append(('reader-error:pix/data_wrap', f'{n} pixels supplied (chunk {c["chunk"]}), file has {r["size"]} bytes; reader: '
+                                                  f'{errs.get("pix/data_wrap")}'))
+    elif view['pix.shape']['vals'][0] != n:
+        out.append(('reader-value:pix.shape', f'{n} pixels supplied (chunk {c["chunk"]}), the reader returns shape {view["pix.shape"]["vals"]}'))
+    elif 'pix.f32' in view:
+        want = [struct.unpack('>I', struct.pack('>f', rows[k][i]))[0] for i in range(n) for k in range(9)]
+        got = view['pix.f32']['vals']
+        if got != want:
+            i = next((j for j, (g, w) in enumerate(zip(got, want)) if g != w), min(len(got), len(want)))
+            out.append(('reader-f32:pix.f32', f'pixel {i // 9} row {S.ROW_ORDER[i % 9]} differs from the supplied value rounded to '
+                                              f'binary32 ({len(got)} values returned, {len(want)} supplied)'))
+    return out
+
+
 def search(ctx, broken):
     """an obligation broke: evaluate the property's own statement on the implementation — write a file, read it back with the
     package, compare supplied and returned quantities (dimension by unit string class, pixel count)"""
@@ -245,10 +305,28 @@ def search(ctx, broken):
              S.mk_case(rng, [S.gen_dnd_call(rng)], sink='bytesio', tags=['search'])]
     for n, chunk in ((20, 1), (20, 3), (100, 10), (10000, None)):
         cases.append(S.mk_case(rng, [S.gen_pix_call(rng, n, n_runs=1, convert=False)], sink='bytesio', chunk=chunk, tags=['search']))
+    # the supplied data array carries masks (flagging the pixels with the extreme value of each row) / extra coordinates
+    for row in S.ROW_ORDER:
+        for which in ('min', 'max'):
+            pc = S.add_pix_extras(rng, S.gen_pix_call(rng, rng.choice([2, 5, 40]), n_runs=1, convert=False), mode=('extreme', row, which))
+            cases.append(S.mk_case(rng, [pc], sink='bytesio', chunk=rng.choice([None, 1, 3]), tags=['search', 'masked-extreme']))
+    cases.append(S.mk_case(rng, [S.add_pix_extras(rng, S.gen_pix_call(rng, 6, n_runs=1, convert=False), mode='random')], tags=['search', 'pix-extras']))
+    # one array write above 1 MiB (a chunk of > 29127 pixels), BytesIO and file; more of them when the low-level writer changed
+    names = ' '.join(broken or [])
+    for sink in ('bytesio', 'file') * (2 if '_low_level_io' in names or '_build' in names else 1):
+        n = rng.randrange(29200, 30000)
+        cases.append(S.mk_case(rng, [S.gen_pix_call(rng, n, n_runs=1, convert=False, row_dtypes='f32-exact')], sink=sink,
+                               chunk=rng.choice([n, n + 1, 65536]), tags=['search', 'single-write-above-1MiB']))
     for i, c in enumerate(cases):
         c['id'] = i
     results = S.run_harness(ctx, cases)
     found = []
+    for c, r in sorted(zip(cases, results), key=lambda cr: S.case_size(cr[0])):
+        if 'error' in r:
+            continue
+        for key, text in pixel_statement_problems(c, r):
+            ctx.violation(key, f'{text} for {S.describe(c)}', {'case': c, 'file_size': r['size'], 'problem': text})
+            found.append(c)
     inverse = {'1/angstrom', '1/nm', '1/um', '1/pm', '1/m'}
     for c, r in zip(cases, results):
         if 'error' in r:
@@ -303,5 +381,9 @@ def replay(ctx, obj):
             sh = view.get('pix.shape')
             print('pixels supplied', cl['npix'], '-> reader returns shape', sh and sh['vals'])
             bad += int(not sh or sh['vals'][0] != cl['npix'])
-    print('required: same numbers, strings, shapes; unit of the same dimension as supplied')
+    for key, text in pixel_statement_problems(case, r):
+        print('pixel content:', key, '::', text)
+        bad += 1
+    print('required: same numbers, strings, shapes; unit of the same dimension as supplied; all N supplied pixels in order; '
+          'npix = N and data_range = per-row min / max over all N supplied pixels (masked or not)')
     return 1 if bad or r['reader'].get('errors') else 0
